@@ -155,14 +155,29 @@ func RunCleanerLoop(e *Engine, rounds int, ipA, ipB int) {
 
 // RunFragmented builds a layer with more than 1024 separate extents (the batch size of the extent scan), snapshots
 // it, overwrites part of it and reopens with preload and reclamation on: every block must still read back.
-func RunFragmented(e *Engine) {
+func RunFragmented(e *Engine, above bool) {
 	blocks := 2400 + e.R.Intn(800)
 	e.Cfg = map[string]interface{}{"blocks": blocks, "punch": true, "profile": "C01-fragmented-layer"}
-	if err := e.Create(int64(blocks)*Block, true); err != nil {
+	// (reclamation would remove the older copies this variant is about: it runs without)
+	e.Cfg["punch"] = !above
+	if err := e.Create(int64(blocks)*Block, !above); err != nil {
 		e.Res.Inconclusive = append(e.Res.Inconclusive, "fragmented: create: "+err.Error())
 		return
 	}
 	defer e.Destroy()
+	if above {
+		// the fragmented layer sits on top of an older layer that holds the same blocks: an extent of the newer file
+		// that the preload misses leaves the block mapped to the older file
+		e.Cfg["profile"] = "C01-fragmented-layer-above-data"
+		for off := int64(0); off < int64(blocks)*Block && !e.Dead; off += 64 * Block {
+			l := int64(64) * Block
+			if off+l > int64(blocks)*Block {
+				l = int64(blocks)*Block - off
+			}
+			e.Write(off, l)
+		}
+		e.Snapshot(e.R.Bool())
+	}
 	// every other block: one extent per block
 	for b := 0; b < blocks && !e.Dead; b += 2 {
 		wid := e.M.NextWID
